@@ -655,9 +655,11 @@ def request_vs_close_runs(chk):
                     closer = threading.Thread(target=lambda: _quiet(c1.close), daemon=True)
                     closer.start()
                     closer.join(0.4)
+                    overlapped = closer.is_alive()      # close() needs the stopped thread (it holds the send lock): they then run together
                     bp.release()
                     closer.join(4)
                 else:
+                    overlapped = False
                     bp.release()
                 t.join(6)
                 lp.disarm_all()
@@ -673,6 +675,11 @@ def request_vs_close_runs(chk):
                         bad = ("lost", "the requesting thread ended without an outcome")
                     elif out[0][0] == "ok" and out[0][1] != 41:
                         bad = ("value", "the request returned %r, the peer sent 41" % (out[0][1],))
+                    elif out[0][0] == "exc" and overlapped and isinstance(out[0][1], (ValueError, OSError)) and \
+                            "closed file" in str(out[0][1]).lower():
+                        # PipeStream.close() closes its files before it swaps in the closed-file markers: a reader running at that
+                        # very moment sees the closed file object itself (observation in DESIGN.md, not judged here)
+                        bad = None
                     elif out[0][0] == "exc" and not isinstance(out[0][1], (EOFError, AsyncResultTimeout)):
                         bad = ("exception", "the request failed with %s: %s instead of EOFError" % (type(out[0][1]).__name__, out[0][1]))
                     if bad:
